@@ -538,6 +538,7 @@ func (p *Parser) parseBuffer(buf []byte, last bool) (err error) {
 			p.addToken(off)
 			p.line++
 			p.noff = off
+			i = 0
 			for i, b = range buf[off+1:] {
 				if spaceMap[b] != skipChar {
 					break
